@@ -761,6 +761,12 @@ impl C15 {
                             if p2 != cur_pool {
                                 cands.push((*k2, "position of another pool"));
                             } else if name != "update_fees_and_rewards" {
+                                // bundled positions of one bundle share the mint and the token account: any of them is a
+                                // legitimate position for the holder of the bundle token
+                                let same_mint = decode::position(&a2.data).map(|p| p.mint) == l.data(&m.pubkey).and_then(decode::position).map(|p| p.mint);
+                                if same_mint {
+                                    continue;
+                                }
                                 cands.push((*k2, "another position of the same pool"));
                             }
                         }
